@@ -14,6 +14,16 @@ def isUnsignedParse : Src → Bool
   | .parseUint _ => true
   | _ => false
 
+/-- the guard bounds `l`, `h` contain the whole interval `[plo, phi]` -/
+def guardCovers (l h : Option Int) (plo phi : Int) : Bool :=
+  (match l with | none => true | some c => decide (c ≤ plo)) &&
+  (match h with | none => true | some c => decide (phi ≤ c))
+
+theorem guardCovers_pass {l h : Option Int} {plo phi : Int} (hc : guardCovers l h plo phi = true) (z : Int)
+    (h1 : plo ≤ z) (h2 : z ≤ phi) : passB l h z = true := by
+  unfold guardCovers at hc
+  cases l <;> cases h <;> simp [passB] at hc ⊢ <;> omega
+
 /-- the call a string clause makes, and what follows it -/
 def strIntBodyOK (tgt : Ty) (body : Body) : Bool :=
   match tgt.range, tgt.must with
@@ -27,6 +37,12 @@ def strIntBodyOK (tgt : Ty) (body : Body) : Bool :=
     match body with
     | .bind s none ⟨.cast t .v, .fromCall⟩ _ => t == tgt && okSrc s
     | .direct s => okSrc s
+    | .bind s (some g) ⟨.cast t .v, .fromCall⟩ (some ⟨_, .overflow⟩) =>
+      -- a guard after the parse that every value the parse call can return (results, clamped bounds, 0) passes
+      t == tgt && okSrc s &&
+      (match parseRange s, intBounds g with
+       | some (plo, phi), some (l, h) => decide (plo ≤ 0 ∧ 0 ≤ phi) && guardCovers l h plo phi
+       | _, _ => false)
     | _ => false
   | _, _ => false
 
@@ -50,6 +66,27 @@ theorem digitsVal_intSyntax (w : String) (n : Nat) (h : digitsVal w.toList = som
   · rename_i cs heq
     rw [heq, digitsVal_nonDigit '-' cs (by decide)] at h; cases h
   · simp [h]
+
+/-- the parse call as `conv` makes it -/
+def parseCall (sc : Strconv) (s : Src) (w : String) : Res :=
+  match s with
+  | .parseInt bits => sc.parseInt bits w
+  | .parseUint bits => sc.parseUint bits w
+  | .atoi => sc.atoi w
+  | _ => Res.garbage
+
+/-- Documented contract of `strconv.ParseInt(w, 10, bits)`, `ParseUint(w, 10, bits)`, `Atoi(w)`, for a call with
+    accepted range `[plo, phi]`:
+    * a nil error comes with the value of the integer numeral `w`, which lies in the range;
+    * an error comes with 0 (syntax) or the nearest bound (range);
+    * an integer numeral in the range is accepted — by `ParseUint` only when it is a plain digit string (no sign). -/
+def ParseIntContract (sc : Strconv) : Prop :=
+  ∀ (s : Src) (plo phi : Int), parseRange s = some (plo, phi) → ∀ w : String,
+    ((parseCall sc s w).err = .ok → ∃ z, intSyntax w = some z ∧ (parseCall sc s w).val = .i z ∧ plo ≤ z ∧ z ≤ phi) ∧
+    ((parseCall sc s w).err ≠ .ok → (parseCall sc s w).err = .other ∧
+      ((parseCall sc s w).val = .i 0 ∨ (parseCall sc s w).val = .i plo ∨ (parseCall sc s w).val = .i phi)) ∧
+    (∀ z, intSyntax w = some z → plo ≤ z → z ≤ phi →
+      (isUnsignedParse s = false ∨ digitsVal w.toList = some z.toNat) → parseCall sc s w = ⟨.i z, .ok⟩)
 
 /-- the modelled parse calls: a value inside the parse range and a nil error, or an error -/
 theorem parse_spec (s : Src) (plo phi : Int) (hp : parseRange s = some (plo, phi)) (w : String) :
@@ -106,6 +143,13 @@ theorem parse_spec (s : Src) (plo phi : Int) (hp : parseRange s = some (plo, phi
       · simp [h2, hs]
       · simp [h2, hs]; omega
 
+
+/-- `goStrconv` (the function the driver runs) satisfies the contract -/
+theorem goStrconv_parseInt_contract : ParseIntContract goStrconv := by
+  intro s plo phi hp w
+  have ps := parse_spec s plo phi hp w
+  simp only at ps
+  exact ps
 
 theorem canon_unsigned (w : String) (z : Int) (hc : canonicalInt false w = true) (hs : intSyntax w = some z) :
     digitsVal w.toList = some z.toNat := by
@@ -169,35 +213,38 @@ theorem str_core (tgt : Ty) (lo hi mlo mhi plo phi : Int) (unsigned : Bool)
       simp [he, hcf]
 
 
-/-- the parse call as `conv` makes it -/
-def parseCall (s : Src) (w : String) : Res :=
-  match s with
-  | .parseInt bits => goStrconv.parseInt bits w
-  | .parseUint bits => goStrconv.parseUint bits w
-  | .atoi => goStrconv.atoi w
-  | _ => Res.garbage
-
-theorem okSrc_sound (tgt : Ty) (lo hi mlo mhi : Int) (hr : tgt.range = some (lo, hi)) (hm : tgt.must = some (mlo, mhi))
+theorem okSrc_sound (sc : Strconv) (hc : ParseIntContract sc) (tgt : Ty) (lo hi mlo mhi : Int) (hr : tgt.range = some (lo, hi)) (hm : tgt.must = some (mlo, mhi))
     (s : Src) (w : String)
     (hok : (match parseRange s with
       | some (plo, phi) =>
         decide (lo ≤ plo ∧ phi ≤ hi) && decide (plo ≤ mlo ∧ mhi ≤ phi) && (isUnsignedParse s == !isSigned tgt)
       | none => false) = true) :
-    specStr tgt w ⟨castTo tgt (parseCall s w).val, (parseCall s w).err⟩ = true ∧ specStr tgt w (parseCall s w) = true := by
+    specStr tgt w ⟨castTo tgt (parseCall sc s w).val, (parseCall sc s w).err⟩ = true ∧
+    specStr tgt w (parseCall sc s w) = true := by
   cases hp : parseRange s with
   | none => simp [hp] at hok
   | some pr =>
     obtain ⟨plo, phi⟩ := pr
     simp only [hp, Bool.and_eq_true, decide_eq_true_eq, beq_iff_eq] at hok
     obtain ⟨⟨h1, h2⟩, h3⟩ := hok
-    have ps := parse_spec s plo phi hp w
-    simp only at ps
-    obtain ⟨P1, _, P3⟩ := ps
-    exact str_core tgt lo hi mlo mhi plo phi (isUnsignedParse s) hr hm h3 h1 h2 w (parseCall s w) P1 P3
+    obtain ⟨P1, _, P3⟩ := hc s plo phi hp w
+    exact str_core tgt lo hi mlo mhi plo phi (isUnsignedParse s) hr hm h3 h1 h2 w (parseCall sc s w) P1 P3
 
-theorem strIntBodyOK_sound (tbl : List Case) (n : Nat) (tgt : Ty) (w : String)
+theorem parseCall_val (sc : Strconv) (hc : ParseIntContract sc) (s : Src) (plo phi : Int) (hp : parseRange s = some (plo, phi)) (h0 : plo ≤ 0 ∧ 0 ≤ phi)
+    (w : String) : ∃ v, (parseCall sc s w).val = .i v ∧ plo ≤ v ∧ v ≤ phi := by
+  obtain ⟨P1, P2, _⟩ := hc s plo phi hp w
+  by_cases he : (parseCall sc s w).err = .ok
+  · obtain ⟨z, _, hz, h1, h2⟩ := P1 he
+    exact ⟨z, hz, h1, h2⟩
+  · obtain ⟨_, hv⟩ := P2 he
+    rcases hv with hv | hv | hv
+    · exact ⟨0, hv, h0.1, h0.2⟩
+    · exact ⟨plo, hv, Int.le_refl _, by omega⟩
+    · exact ⟨phi, hv, by omega, Int.le_refl _⟩
+
+theorem strIntBodyOK_sound (sc : Strconv) (hc : ParseIntContract sc) (tbl : List Case) (n : Nat) (tgt : Ty) (w : String)
     (hk : strIntBodyOK tgt (lookup tbl tgt (.ty .string)) = true) :
-    specStr tgt w (conv goStrconv tbl (n + 1) tgt (.ty .string) (.s w)) = true := by
+    specStr tgt w (conv sc tbl (n + 1) tgt (.ty .string) (.s w)) = true := by
   unfold strIntBodyOK at hk
   cases hr : tgt.range with
   | none => simp [hr] at hk
@@ -214,10 +261,32 @@ theorem strIntBodyOK_sound (tbl : List Case) (n : Nat) (tgt : Ty) (w : String)
       | .bind s none ⟨.cast t .v, .fromCall⟩ _, hk =>
         simp only [Bool.and_eq_true, beq_iff_eq] at hk
         obtain ⟨rfl, hok⟩ := hk
-        have hs := (okSrc_sound t lo hi mlo mhi hr hm s w (by simpa using hok)).1
+        have hs := (okSrc_sound sc hc t lo hi mlo mhi hr hm s w (by simpa using hok)).1
         cases s <;> first | (simp [parseRange] at hok; done) | simpa [evalBody, evalR, errOf, evalE, parseCall, strOf] using hs
       | .direct s, hk =>
-        have hs := (okSrc_sound tgt lo hi mlo mhi hr hm s w (by simpa using hk)).2
+        have hs := (okSrc_sound sc hc tgt lo hi mlo mhi hr hm s w (by simpa using hk)).2
         cases s <;> first | (simp [parseRange] at hk; done) | simpa [evalBody, parseCall, strOf] using hs
+      | .bind s (some g) ⟨.cast t .v, .fromCall⟩ (some ⟨fe, .overflow⟩), hk =>
+        simp only [Bool.and_eq_true, beq_iff_eq] at hk
+        obtain ⟨⟨rfl, hok⟩, hgd⟩ := hk
+        have hs := (okSrc_sound sc hc t lo hi mlo mhi hr hm s w (by simpa using hok)).1
+        cases hp : parseRange s with
+        | none => simp [hp] at hgd
+        | some pr =>
+          obtain ⟨plo, phi⟩ := pr
+          cases hg : intBounds g with
+          | none => simp [hp, hg] at hgd
+          | some lh =>
+            obtain ⟨l, h⟩ := lh
+            simp only [hp, hg, Bool.and_eq_true, decide_eq_true_eq] at hgd
+            obtain ⟨h0, hcov⟩ := hgd
+            obtain ⟨v, hv, hv1, hv2⟩ := parseCall_val sc hc s plo phi hp h0 w
+            have hpass := guardCovers_pass hcov v hv1 hv2
+            have hev : evalC (parseCall sc s w).val g = some true := by
+              rw [hv, intBounds_sound g l h v hg, hpass]
+            cases s <;> first
+              | (simp [parseRange] at hp; done)
+              | (simp only [parseCall, strOf] at hev hs
+                 simpa [evalBody, hev, evalR, errOf, evalE, strOf] using hs)
 
 end FpgoVerif.C02
